@@ -95,6 +95,15 @@ def check (pid : String) (j : Json) : Except String Verdict := do
   let kind ← jStr j "kind"
   let n ← jNat j "n"
   let o ← j.getObjVal? "obs"
+  if kind = "drain-race" then
+    -- model: `rDrain` takes what is in the channel at that moment and never waits (fact `drainThenPublish`); the hand-off and
+    -- the adoption follow whatever the sender took meanwhile (`comes_to_rest`)
+    let resub := jBoolD o "resubscribed" false
+    let lk := jStrD o "lookupAfter" "?"
+    let ok := resub && lk != "hang"
+    return { nontrivial := jNatD o "queuedAtFailure" 0 > 0
+             mismatch := if ok then none else some s!"drain race: in the model the reconnect's drain never waits; impl: re-subscription on the new stream={resub}, lookup afterwards={lk}"
+             specfail := if ok then none else some s!"C04.resubscribe_after_failure: the stream failed with {jNatD o "queuedAtFailure" 0} requests queued and the sender emptying the channel at the same time; five seconds later the new stream has {if resub then "" else "NOT "}received the full re-subscription and a lookup afterwards returned '{lk}': {jStrD o "state" ""}" }
   let r1 := jNatD o "returnedWhileStalled" 0
   let r2 := jNatD o "returned" 0
   let hang := jBoolD o "hang" false
